@@ -1264,6 +1264,11 @@ def r22_year_kernel(ctx, rule):
     pref = [st for st in walk_stmts(fn.body) if isinstance(st, ast.Assign) and isinstance(st.value, (ast.List, ast.Tuple, ast.Set))
             and st.value.elts and all(isinstance(const(e), str) for e in st.value.elts)]
     pv = [sorted(const(e) for e in st.value.elts) for st in pref]
+    # ... or written into the loop header: for prefix in ('19', '20')
+    for lp_ in [x for x in walk_local(fn) if isinstance(x, ast.For) and isinstance(x.iter, (ast.List, ast.Tuple, ast.Set)) and x.iter.elts
+                and all(isinstance(const(e), str) for e in x.iter.elts)]:
+        pref.append(lp_)
+        pv.append(sorted(const(e) for e in lp_.iter.elts))
     if ['19', '20'] not in pv:
         if pv:
             ctx.bad(rule, q, 'year prefixes %s' % pv[0], "years are four digits starting 19 or 20", None, pref[0], firm=True)
@@ -1290,7 +1295,15 @@ def r22_year_kernel(ctx, rule):
         return
     st_emit = c08._stmt_of(mod, emits[0])
     digits = {}
-    for t, pol in path_conditions(mod, st_emit):
+
+    def atoms(t, pol):
+        # not X -> X with the polarity flipped; (A and B) true -> A, B true; (A or B) false -> A, B false; anything else stays whole
+        if isinstance(t, ast.UnaryOp) and isinstance(t.op, ast.Not):
+            return atoms(t.operand, not pol)
+        if isinstance(t, ast.BoolOp) and ((isinstance(t.op, ast.And) and pol) or (isinstance(t.op, ast.Or) and not pol)):
+            return [a for v in t.values for a in atoms(v, pol)]
+        return [(t, pol)]
+    for t, pol in [a for t0, p0 in path_conditions(mod, st_emit) for a in atoms(t0, p0)]:
         if isinstance(t, ast.Call) and isinstance(t.func, ast.Attribute) and t.func.attr == 'isdigit' and isinstance(t.func.value, ast.Subscript) \
                 and U(t.func.value.value) == base:
             try:
